@@ -61,6 +61,16 @@ pub fn c09_scenario(seed: u64, idx: u64) -> Scenario {
         if rng.chance(1, 4) {
             hs.push(("Range".into(), rng.pick(&["bytes=0-3", "bytes=1-", "bytes=0-1,3-4"]).to_string()));
         }
+        // the Host the browser names: unrelated, or the Origin's host on the server's port
+        if let Some((_, o)) = hs.iter().find(|(n, _)| n == "Origin").cloned() {
+            if rng.chance(1, 2) {
+                let host = o.split("://").nth(1).unwrap_or("h").split(':').next().unwrap_or("h").to_string();
+                hs.push(("Host".into(), format!("{}:7878", host)));
+            }
+        }
+        // header lines in any order (the same order in all three requests of the group)
+        let mut order_rng = rng.fork();
+        order_rng.shuffle(&mut hs);
         let hs2: Vec<(&str, &str)> = hs.iter().map(|(a, b)| (a.as_str(), b.as_str())).collect();
         let gid = sc.conns.len();
         sc.conns.push(Conn::simple(gid, gid as u32, req("GET", &p, &hs2, b""), "get"));
@@ -124,6 +134,13 @@ pub fn c11_scenario(seed: u64, idx: u64) -> Scenario {
                 hs.push(("Access-Control-Request-Headers".into(), "X-Custom, Content-Type".into()));
             }
         }
+        if let Some((_, o)) = hs.iter().find(|(n, _)| n == "Origin").cloned() {
+            if rng.chance(1, 3) && o.contains("://") {
+                let host = o.split("://").nth(1).unwrap_or("h").split(':').next().unwrap_or("h").to_string();
+                hs.push(("Host".into(), format!("{}:7878", host)));
+            }
+        }
+        rng.shuffle(&mut hs);
         let hs2: Vec<(&str, &str)> = hs.iter().map(|(a, b)| (a.as_str(), b.as_str())).collect();
         let mut bytes = req(method, target, &hs2, b"");
         let mut class = "cors";
